@@ -26,16 +26,16 @@ open DocSize (extBigV ExtBig)
 
 theorem bn_save (x : S) (bytes : List Byte) : BN x.d (save x bytes).2.d := by
   intro h
-  have h' : BytesNodup (JDD.calm x.d) := h
+  have h' : BytesNodup (JDD.calm x.d bytes.length) := h
   have := saveString_bytesNodup (s := bytes) h'
   cases hf : x.d.strings.find? (·.bytes == bytes) with
   | some y =>
-    have hf' : (JDD.calm x.d).strings.find? (·.bytes == bytes) = some y := hf
+    have hf' : (JDD.calm x.d bytes.length).strings.find? (·.bytes == bytes) = some y := hf
     rw [saveString_found hf'] at this
     rw [MDD.mp_save_eq_found hf]; exact this
   | none =>
-    have hf' : (JDD.calm x.d).strings.find? (·.bytes == bytes) = none := hf
-    rw [saveString_new hf', JDD.calm_failsAt] at this
+    have hf' : (JDD.calm x.d bytes.length).strings.find? (·.bytes == bytes) = none := hf
+    rw [saveString_short hf' (Nat.le_refl _), JDD.calm_failsAt] at this
     simp only [Bool.false_eq_true, if_false] at this
     rw [MDD.mp_save_eq_new hf]; exact this
 
@@ -288,16 +288,16 @@ theorem run_bytes_nodup (env : MD.Env) (limit : Nat) (flt : Flt) (d : Doc) (inpu
 /-- `StringBuffer::save` keeps exact counts exact, with one more reference to the node it returns -/
 theorem mp_save_exact (x : S) (bytes : List Byte) {rs : List Nat} (hs : StrOK x.d rs) (he : Exact x.d rs) :
     Exact (save x bytes).2.d ((save x bytes).1 :: rs) := by
-  have hs' : StrOK (JDD.calm x.d) rs := StrOK_congr (d := x.d) (d' := JDD.calm x.d) rfl rfl hs
-  have he' : Exact (JDD.calm x.d) rs := he
+  have hs' : StrOK (JDD.calm x.d bytes.length) rs := StrOK_congr (d := x.d) (d' := JDD.calm x.d bytes.length) rfl rfl hs
+  have he' : Exact (JDD.calm x.d bytes.length) rs := he
   cases hf : x.d.strings.find? (·.bytes == bytes) with
   | some y =>
-    have hf' : (JDD.calm x.d).strings.find? (·.bytes == bytes) = some y := hf
+    have hf' : (JDD.calm x.d bytes.length).strings.find? (·.bytes == bytes) = some y := hf
     have := saveString_exact hs' he' (saveString_found hf')
     rw [MDD.mp_save_eq_found hf]; exact this
   | none =>
-    have hf' : (JDD.calm x.d).strings.find? (·.bytes == bytes) = none := hf
-    have hsv := saveString_new hf'
+    have hf' : (JDD.calm x.d bytes.length).strings.find? (·.bytes == bytes) = none := hf
+    have hsv := saveString_short hf' (Nat.le_refl _)
     rw [JDD.calm_failsAt] at hsv
     simp only [Bool.false_eq_true, if_false] at hsv
     have := saveString_exact hs' he' hsv
